@@ -1,10 +1,12 @@
 import PubModel.C19.Theorems
 open PubModel.C19
+#print axioms round_order_free
 #print axioms layer_mono
 #print axioms check_iff
 #print axioms check_total
 #print axioms cycle_real
 #print axioms cycle_min
+#print axioms cycle_reported
 #print axioms closure_exact
 #print axioms crit_is_reduction
 #print axioms layout_sound
